@@ -18,7 +18,10 @@ func init() {
 			"C05.2 attribution: XOR-PEER-ADDRESS IP/Port are the fields of the UDP source of that same read, ChannelData.Number is the Number of the binding found for that same source; " +
 			"C05.3 the count returned by alloc.WriteTo is compared with len of the very payload written and a mismatch returns a non-nil error; " +
 			"C05.4 truncation guard (sibling rule): every PacketConn.ReadFrom into a buffer smaller than the largest UDP datagram is followed, before the bytes are used, by a test establishing n < len(buffer), so that a datagram that filled the buffer is dropped rather than forwarded cut; " +
-			"C05.5 inbound payloads queued for the application never alias the reusable read buffer: what UDPConn.HandleInbound enqueues is a fresh copy.",
+			"C05.5 inbound payloads queued for the application never alias the reusable read buffer: what UDPConn.HandleInbound enqueues is a fresh copy; " +
+			"C05.6 the stream framer's size arithmetic cannot wrap (shared rule C09.1 on the framing functions); " +
+			"C05.8 (=C09.3/C10.1p) the stream de-framer returns exactly the bytes it buffered for the frame and advances its own buffer by that amount; " +
+			"C05.7 the client writes the complete encoded ChannelData (header, payload, padding) of a literal built from the caller's payload and channel number.",
 		NotCovered: "exactly-once delivery, byte equality beyond provenance, ChannelData padding arithmetic modulo 4 (see C11), duplication by the network.",
 		Run:        runC05,
 	})
@@ -295,6 +298,63 @@ func runC05(c *Ctx) {
 			})
 		}
 		ruleNoWrap(c, "C05.6", all, 1)
+	}
+
+	// ---- C05.8 the stream de-framer hands out what it buffered, from its own storage
+	ruleProgress(c, "C05.8")
+
+	// ---- C05.7 client → server ChannelData is written whole
+	c.Rule("C05.7", "client ChannelData: what (*UDPConn).sendChannelData writes to the server is the complete Raw of a ChannelData literal {Data: the caller's payload, Number: the caller's channel number} on which Encode() was called — not a slice of it (the padding delimits the message on a stream transport, and the client cannot tell the transport from the server address)", 1)
+	{
+		fn := w.Func("client", "UDPConn", "sendChannelData")
+		c.Anchor("C05.7", "sendChannelData")
+		n := 0
+		bad := ""
+		w.eachInstrDeep(fn, func(in ssa.Instruction) {
+			call, ok := in.(*ssa.Call)
+			if !ok || !call.Call.IsInvoke() || call.Call.Method.Name() != "WriteTo" {
+				return
+			}
+			n++
+			arg := w.resolveLoad(call.Call.Args[0])
+			base, f, isL := fieldLoad(arg)
+			if !isL || f.Name() != "Raw" {
+				bad = "the bytes written at " + w.instrPos(in) + " are " + w.desc(call.Call.Args[0]) + ", not the whole Raw of the encoded ChannelData: a re-sliced or alternative buffer drops the padding / header the receiver's framer relies on"
+				return
+			}
+			al, _ := w.resolveLoad(base).(*ssa.Alloc)
+			if al == nil {
+				al, _ = base.(*ssa.Alloc)
+			}
+			if al == nil {
+				bad = "the ChannelData written at " + w.instrPos(in) + " is not a local literal"
+				return
+			}
+			lit := w.literalOf(al)
+			okData := lit != nil && lit.fields["Data"] != nil && w.sameKey(lit.fields["Data"], fn.Params[1])
+			okNum := false
+			if lit != nil && lit.fields["Number"] != nil {
+				okNum = w.sameKey(stripIntConv(lit.fields["Number"]), fn.Params[2])
+			}
+			enc := w.Func("proto", "ChannelData", "Encode")
+			okEnc := false
+			w.eachInstr(call.Parent(), func(i2 ssa.Instruction) {
+				if c2, ok := i2.(*ssa.Call); ok && c2.Call.StaticCallee() == enc && len(c2.Call.Args) > 0 && (c2.Call.Args[0] == ssa.Value(al) || w.sameKey(c2.Call.Args[0], al)) && instrDominates(c2, call) {
+					okEnc = true
+				}
+			})
+			if !(okData && okNum && okEnc) {
+				bad = fmt.Sprintf("the ChannelData written at %s is not {Data: payload (%v), Number: channel (%v)} encoded by Encode() before the write (%v)", w.instrPos(in), okData, okNum, okEnc)
+			}
+		})
+		if bad == "" && n == 1 {
+			c.OK("C05.7", fname(fn), "sendChannelData", w.pos(fn.Pos()), "writes chData.Raw of {Data: data, Number: chNum} after Encode()")
+		} else {
+			if bad == "" {
+				bad = fmt.Sprintf("%d writes to the server (exactly one expected)", n)
+			}
+			c.Bad("C05.7", fname(fn), "sendChannelData", w.pos(fn.Pos()), bad)
+		}
 	}
 }
 
